@@ -118,7 +118,9 @@ Theorem C10_generated_decisions :
   ((forall b, forest_new_root b = negb b) /\ forest_forwards_exclusions KFace = true /\
    (forall k p, forest_cfg k p = mkCfg k false false p)) /\
   ((forall k r n, root_ok k r n = (Z.leb 0 r && Z.ltb r n)) /\
-   (forall k, tree_resets k = true) /\ kr_resets = true /\ (forall k, forest_resets k = true)).
+   (forall k, tree_resets k = true) /\ kr_resets = true /\ (forall k, forest_resets k = true)) /\
+  (ctor_defaults_immutable = true /\ exclusion_defaults_are_none = true /\
+   forall k p, default_cfg k p = Some (mkCfg k false false p)).
 Proof. exact generated_decisions. Qed.
 Print Assumptions C10_generated_decisions.
 
